@@ -131,4 +131,44 @@ theorem choose_total {possible prio : List Loc} (h : possible ≠ []) : ∃ l, c
   · exact ⟨_, rfl⟩
   · split <;> exact ⟨_, rfl⟩
 
+
+/-! ### entries that name no offering service, and repeated entries -/
+
+theorem find_skip {pre post : List Loc} {q : Loc → Bool} {x : Loc} (hx : q x = false) :
+    (pre ++ x :: post).find? q = (pre ++ post).find? q := by
+  rw [List.find?_append, List.find?_append]
+  simp [List.find?, hx]
+
+/-- an entry of the priority list that does not offer the field — a blank, a name no service has, a service that
+    does not declare it — changes nothing, wherever it stands -/
+theorem choose_skip_irrelevant (possible pre post : List Loc) (x : Loc) (hx : x ∉ possible) :
+    choose possible (pre ++ x :: post) = choose possible (pre ++ post) := by
+  unfold choose
+  split
+  · rfl
+  · rfl
+  · rename_i a b hne
+    rw [find_skip (by simpa using hx)]
+
+theorem find_repeat {pre mid post : List Loc} {q : Loc → Bool} {x : Loc} :
+    (pre ++ x :: (mid ++ x :: post)).find? q = (pre ++ x :: (mid ++ post)).find? q := by
+  cases hx : q x with
+  | true =>
+    rw [List.find?_append, List.find?_append]
+    simp [List.find?, hx]
+  | false =>
+    rw [find_skip hx, find_skip hx]
+    have : pre ++ (mid ++ x :: post) = (pre ++ mid) ++ x :: post := by simp
+    rw [this, find_skip hx]; simp
+
+/-- naming a service a second time changes nothing: its first occurrence is its rank, and what follows the
+    repetition keeps its order -/
+theorem choose_repeat_irrelevant (possible pre mid post : List Loc) (x : Loc) :
+    choose possible (pre ++ x :: (mid ++ x :: post)) = choose possible (pre ++ x :: (mid ++ post)) := by
+  unfold choose
+  split
+  · rfl
+  · rfl
+  · rw [find_repeat]
+
 end Sel
